@@ -24,7 +24,7 @@ func init() {
 			{ID: "C17.b", Title: "EVICT-ONE", Template: "T1", MinInst: 1,
 				Rule: "the eviction loop body never returns to the loop head and on its way out calls the entry's cancel function, deletes it from the low-priority map and stores the leaf at that slot", Run: c17b},
 			{ID: "C17.c", Title: "CLOSED-FIRST", Template: "T2", MinInst: 1,
-				Rule: "in addLeafToPool every pool mutation is unreachable unless the current pool's error was read as nil", Run: c17c},
+				Rule: "in addLeafToPool every pool mutation is unreachable unless the current pool's error was read as nil, and without that edge the only wait functions handed out are literals that never yield an entry (no deduplicated or cached answer from a stopped log)", Run: c17c},
 			{ID: "C17.d", Title: "DONE-ON-ALL-EXITS", Template: "T9", MinInst: 2,
 				Rule: "in the sequencing function and in RunSequencer no return is reachable from the entry without passing the defer that closes the pool's done channel", Run: c17d},
 			{ID: "C17.e", Title: "STOP-IS-ERROR", Template: "T8", MinInst: 1,
@@ -315,6 +315,40 @@ func c17c(c *Ctx) {
 		c.Bad(inst, f.Pos(pt.B.Nodes[pt.I]), "a submission can be added to a pool whose error is set (sequencer stopped)")
 	} else {
 		c.add(Result{Instance: inst, Verdict: Discharged, Sites: sitePositions(muts), Evals: len(muts), Detail: "all pool mutations unreachable unless pool.err == nil", Witnesses: f.WitEdges(safe)})
+	}
+	// after a stop every future submission fails: without the pool.err == nil edge
+	// the only wait functions handed out are literals that never yield an entry
+	inst = f.Name + " stopped pool yields no entry"
+	if len(safe) == 0 {
+		return
+	}
+	bad := false
+	rets := g.ReturnsFrom(g.Entry(), Cut{Edges: safe})
+	for _, r := range rets {
+		if len(r.Results) == 0 {
+			c.Bad(inst, f.Pos(r), "a wait function assigned earlier is returned without the stopped-pool check")
+			bad = true
+			continue
+		}
+		lit, ok := ast.Unparen(r.Results[0]).(*ast.FuncLit)
+		if !ok {
+			c.Bad(inst, f.Pos(r), "a submission to a stopped pool can be answered with a previously registered wait function (deduplication) instead of the stop error")
+			bad = true
+			continue
+		}
+		ast.Inspect(lit.Body, func(n ast.Node) bool {
+			if _, isLit := n.(*ast.FuncLit); isLit {
+				return false
+			}
+			if rr, isRet := n.(*ast.ReturnStmt); isRet && len(rr.Results) == 2 && !isNilIdent(info, rr.Results[0]) {
+				c.Bad(inst, f.Pos(rr), "a submission to a stopped pool can be answered with an entry (from the deduplication cache) instead of the stop error")
+				bad = true
+			}
+			return true
+		})
+	}
+	if !bad {
+		c.add(Result{Instance: inst, Verdict: Discharged, Evals: len(rets), Sites: []string{f.Pos(f.Decl)}, Detail: fmt.Sprintf("with the pool.err == nil edges cut, the %d reachable returns hand out literals that only return (nil, error)", len(rets)), Witnesses: f.WitEdges(safe)})
 	}
 }
 
